@@ -238,7 +238,7 @@ func judgeSubscribe(r *vlib.Run, mode string, trial int, rng *rand.Rand, reqs []
 		if n, ok := culprit.(*pb.Notification); ok && entry == "cache-ingest" {
 			class, _ = cacheClass(pi, n, nil)
 		} else if entry == "subscribe" {
-			small := shrink(reqs[0], 120, func(m proto.Message) bool {
+			small := shrink(reqs[0], 200, func(m proto.Message) bool {
 				rs := append([]*pb.SubscribeRequest{proto.Clone(m).(*pb.SubscribeRequest)}, reqs[1:]...)
 				_, p2, e2, _ := runSubscribe(r, rand.New(rand.NewSource(optSeed)), rs, feed)
 				return p2 != nil && e2 == entry && p2.Kind == pi.Kind
